@@ -30,4 +30,19 @@ impl<K: KeyV> HashSet<K> {
     #[verifier::external_body] pub fn remove<Q: KeyV<KV = K::KV> + ?Sized>(&mut self, k: &Q) -> (b: bool) ensures final(self)@ == old(self)@.remove(k.kv()), b == old(self)@.contains(k.kv()) { unimplemented!() }
     #[verifier::external_body] pub fn is_empty(&self) -> (r: bool) ensures r == (self@ =~= Set::<K::KV>::empty()) { unimplemented!() }
     #[verifier::external_body] pub fn len(&self) -> (r: usize) ensures self@.finite() ==> r == self@.len() { unimplemented!() }
+    // R12 target for `for x in set`: every element exactly once, in an unspecified order
+    #[verifier::external_body] pub fn to_vec(&self) -> (r: Vec<&K>)
+        ensures
+            forall|i: int| 0 <= i < r@.len() ==> self@.contains(#[trigger] r@[i].kv()),
+            forall|k: K::KV| self@.contains(k) ==> exists|i: int| 0 <= i < r@.len() && #[trigger] r@[i].kv() == k,
+    { unimplemented!() }
+}
+// R12 target for `map.entry(k).or_default().push(v)` on a map from strings to lists of strings
+impl<'a> HashMap<&'a str, Vec<&'a str>> {
+    #[verifier::external_body] pub fn entry_or_default_push(&mut self, k: &'a str, v: &'a str)
+        ensures
+            final(self)@.dom() == old(self)@.dom().insert(k@),
+            final(self)@[k@]@ == (if old(self)@.dom().contains(k@) { old(self)@[k@]@ } else { Seq::<&'a str>::empty() }).push(v),
+            forall|q: Seq<char>| q != k@ && old(self)@.dom().contains(q) ==> final(self)@[q] == old(self)@[q],
+    { unimplemented!() }
 }
